@@ -180,10 +180,10 @@ class QCC(Ansatz):
             initial_var_params = np.concatenate((self.qmf_var_params, initial_var_params))
         else:
             initial_var_params = np.array(var_params)
-        self.var_params = initial_var_params
         if initial_var_params.size != self.n_var_params:
             raise ValueError(f"Expected {self.n_var_params} variational parameters but "
                              f"received {initial_var_params.size}.")
+        self.var_params = initial_var_params
         return initial_var_params
 
     def prepare_reference_state(self):
@@ -223,6 +223,8 @@ class QCC(Ansatz):
         # Track the order in which pauli words have been visited for fast parameter updates
         pauli_words_gates = []
         pauli_words = sorted(qubit_op.terms.items(), key=lambda x: len(x[0]))
+        # Start from an empty mapping: entries of a previous build (other generators present) must not survive
+        self.pauli_to_angles_mapping = dict()
         for i, (pauli_word, coef) in enumerate(pauli_words):
             pauli_words_gates += exp_pauliword_to_gates(pauli_word, coef)
             self.pauli_to_angles_mapping[pauli_word] = i
